@@ -100,7 +100,7 @@ class CacheModel:
                 calls = A.body_calls(m.node)
                 rem = [c for c in calls if A.call_attr(c) == "remove" and self_attr(A.call_recv(c), self.queue)]
                 app = [c for c in calls if A.call_attr(c) in ("append", "appendleft") and self_attr(A.call_recv(c), self.queue)]
-                if rem and app and len(m.params) == 2:
+                if rem and app and len(m.params) == 2 and name.startswith("_"):
                     self.mark_used.append(m)
         self.extra_deleters = []
         if len(self.evict) > 1:
@@ -125,12 +125,33 @@ class CacheModel:
             raise AnalysisError("MemoryCache.put does not insert into the resident map (inserting methods: %s)" % [m.qual for m in self.insert])
         self.insert = puts
         if len(self.mark_used) != 1:
-            raise AnalysisError("MemoryCache: expected exactly one mark-used helper, found %s" % [m.qual for m in self.mark_used])
+            # no dedicated helper (it was inlined into the readers, or never existed): recency is refreshed
+            # wherever a method removes a key from the queue and appends it again
+            self.mark_used = [None]
         self.evict = self.evict[0]
         self.insert = self.insert[0]
         self.mark_used = self.mark_used[0]
 
+    @property
+    def mark_used_name(self) -> str:
+        return self.mark_used.name if self.mark_used is not None else "<inline mark-used>"
+
+    def mark_nodes(self, fa) -> list:
+        """CFG nodes of `fa` that refresh the recency of a key: calls of the mark-used helper, or (without a
+        helper) the `queue.append(k)` of an inline remove-then-append."""
+        out = []
+        if self.mark_used is not None:
+            out += fa.nodes_all([c for c in fa.calls(self.mark_used.name) if self.is_self_call(c, self.mark_used)])
+        rem = [c for c in fa.calls("remove") if self_attr(A.call_recv(c), self.queue) and c.args]
+        for c in fa.calls("append"):
+            if self_attr(A.call_recv(c), self.queue) and c.args and any(A.norm(r.args[0]) == A.norm(c.args[0]) for r in rem):
+                # the append is not part of an insertion into the map
+                out += fa.nodes(c)
+        return out
+
     def is_self_call(self, call, method) -> bool:
+        if method is None:
+            return False
         return (
             isinstance(call.func, ast.Attribute)
             and call.func.attr == method.name
